@@ -51,19 +51,46 @@ def _is_entity(name):
     return name in _ENTITY_NAMES
 
 
+def split_indent(line):
+    """-> (columns of leading spaces / tabs, rest of the line)"""
+    cols = i = 0
+    for ch in line:
+        if ch == ' ':
+            cols += 1
+        elif ch == '\t':
+            cols += 4 - cols % 4
+        else:
+            break
+        i += 1
+    return cols, line[i:]
+
+
+def bodies(lines):
+    return [split_indent(line)[1] for line in lines]
+
+
 def not_inert_reason(lines):
-    """None if CommonMark gives no part of this paragraph a meaning (conservative: may reject inert paragraphs)."""
-    for i, line in enumerate(lines):
+    """None if CommonMark gives no part of this paragraph a meaning (conservative: may reject inert paragraphs).
+    Lines may be indented with spaces / tabs: up to 3 columns anywhere, and 4 or more on a continuation line,
+    where no block can start (indented code cannot interrupt a paragraph)."""
+    for i, raw in enumerate(lines):
+        cols, line = split_indent(raw)
         if line != line.strip() or line == '':
             return 'whitespace at line edge'
+        if i == 0 and cols >= 4:
+            return 'indented code'
+        if i > 0 and _DELIM_ROW.match(line):
+            return 'table delimiter row'
+        if line.endswith('\\'):
+            return 'backslash hard break'
+        if i > 0 and cols >= 4:
+            continue        # nothing can start here
         if _ATX.match(line):
             return 'ATX heading opener'
         if _HR.match(line):
             return 'thematic break'
         if i > 0 and _SETEXT.match(line):
             return 'setext underline'
-        if i > 0 and _DELIM_ROW.match(line):
-            return 'table delimiter row'
         if _LIST.match(line):
             return 'list marker'
         if line.startswith('>'):
@@ -74,8 +101,7 @@ def not_inert_reason(lines):
             return 'possible HTML block'
         if line.startswith('[') and ']:' in line:
             return 'possible link reference definition'
-        if line.endswith('\\'):
-            return 'backslash hard break'
+    lines = bodies(lines)
     text = '\n'.join(lines)
     if '<em>' in emphasis.model(text) or '<strong>' in emphasis.model(text):
         return 'emphasis'
@@ -103,14 +129,22 @@ def not_inert_reason(lines):
 
 
 def expected_html(lines):
-    text = '\n'.join(lines)
+    text = '\n'.join(bodies(lines))
     return '<p>%s</p>\n' % text.replace('&', '&amp;').replace('<', '&lt;').replace('>', '&gt;')
+
+
+INDENTS = ['', '', '', '', '', '', ' ', '  ', '   ', '    ', '     ', '\t', '  \t', ' \t ', '        ', '\t\t']
+
+
+def indent(t, first):
+    return t.choice(INDENTS[:9] if first else INDENTS)
 
 
 class Prose(HypPart):
     name = 'prose'
     budget = {'quick': 9000, 'thorough': 500000}
-    rule = ('paragraphs of 1-4 lines of 1-8 tokens (single spaces) from a vocabulary of ~%d tricky-but-inert tokens, kept only if an '
+    required_labels = {'continuation-indented>=4': 0.03, 'indented<4': 0.05}
+    rule = ('paragraphs of 1-4 lines (each optionally indented by spaces / tabs) of 1-8 tokens (single spaces) from a vocabulary of ~%d tricky-but-inert tokens, kept only if an '
             'independent spec-derived predicate finds no live construct; oracle: output == <p>escaped text</p> exactly; '
             'non-trivial = >= 3 distinct punctuation-bearing tokens; distinct = distinct paragraph' % len(VOCAB))
 
@@ -122,7 +156,7 @@ class Prose(HypPart):
         while not t.exhausted():
             lines = []
             for _ in range(t.weighted([(3, 1), (3, 2), (2, 3), (1, 4)])):
-                lines.append(' '.join(t.choice(VOCAB) for _ in range(1 + t.below(8))))
+                lines.append(indent(t, not lines) + ' '.join(t.choice(VOCAB) for _ in range(1 + t.below(8))))
             yield {'lines': lines}
 
     def check(self, case):
@@ -132,9 +166,13 @@ class Prose(HypPart):
         why = not_inert_reason(lines)
         if why:
             return Out(skip='not inert: ' + why)
-        toks = {w for line in lines for w in line.split(' ') if any(not c.isalnum() for c in w)}
+        toks = {w for line in bodies(lines) for w in line.split(' ') if any(not c.isalnum() for c in w)}
         nt = len(toks) >= 3
         labels = ('lines:%d' % len(lines),)
+        if any(split_indent(x)[0] >= 4 for x in lines[1:]):
+            labels += ('continuation-indented>=4',)
+        if any(0 < split_indent(x)[0] < 4 for x in lines):
+            labels += ('indented<4',)
         text = '\n'.join(lines)
         try:
             got, _ = renderers.render('Html', {}, text)
@@ -186,7 +224,7 @@ class Composed(Prose):
         while not t.exhausted():
             lines = []
             for _ in range(t.weighted([(3, 1), (3, 2), (2, 3), (1, 4)])):
-                lines.append(' '.join(t.choice(VOCAB) if t.chance(64) else compose_token(t) for _ in range(1 + t.below(6))))
+                lines.append(indent(t, not lines) + ' '.join(t.choice(VOCAB) if t.chance(64) else compose_token(t) for _ in range(1 + t.below(6))))
             yield {'lines': lines}
 
 
@@ -200,12 +238,12 @@ class C14(Prop):
 
     def selfcheck(self):
         """The inertness predicate must reject live constructs and accept plain tricky prose."""
-        live = [['# h'], ['a', '==='], ['- x'], ['1. x'], ['> q'], ['*a*'], ['a `b` c'], ['[a](b)'], ['a &amp; b'], ['a \\* b'],
+        live = [['    code'], ['a', '   - x'], ['a', ' ==='], ['a', '     -|-'], ['  > q'], ['# h'], ['a', '==='], ['- x'], ['1. x'], ['> q'], ['*a*'], ['a `b` c'], ['[a](b)'], ['a &amp; b'], ['a \\* b'],
                 ['<http://x.y>'], ['~~a~~ ~~'], ['***'], ['a', '|-|'], ['```'], ['a\\']]
         for lines in live:
             if not_inert_reason(lines) is None:
                 raise RuntimeError('inertness predicate accepts %r' % (lines,))
-        inert = [['snake_case 2*3 AT&T #tag'], ['a * b - c + d', '= e | f ~ g'], ['1.5 (a) 2)x', 'it\'s "q" 100%']]
+        inert = [['a', '    > b'], ['a', '\t- b', '     # c'], [' a', '  b #'], ['snake_case 2*3 AT&T #tag'], ['a * b - c + d', '= e | f ~ g'], ['1.5 (a) 2)x', 'it\'s "q" 100%']]
         for lines in inert:
             if not_inert_reason(lines) is not None:
                 raise RuntimeError('inertness predicate rejects %r: %s' % (lines, not_inert_reason(lines)))
